@@ -234,6 +234,16 @@ func (r *breader) size(n int64, max int64, elemSize uint64) int {
 	return int(n)
 }
 
+// sizeFor takes n items of elemSize bytes from the budget (a negative n counts
+// as a huge amount), then validates n like size.
+func (r *breader) sizeFor(n int64, max int64, elemSize uint64) int {
+	if r.err != nil {
+		return 0
+	}
+	r.consumeBudget(uint64(n) * elemSize)
+	return r.size(n, max, elemSize)
+}
+
 // available returns false if the underlying reader knows that fewer than n
 // bytes are left to read.
 func (r *breader) available(n uint64) bool {
@@ -251,16 +261,14 @@ func (r *breader) readCode(c *Code) {
 	)
 	// The budget for the items is consumed before the memory for them is
 	// allocated: the sizes come from the input.
-	n := r.size(sz, maxChunkCodeLen, 4)
-	r.consumeBudget(4 * uint64(n))
+	n := r.sizeFor(sz, maxChunkCodeLen, 4)
 	c.code = make([]code.Opcode, n)
 	r.read(
 		8,
 		c.code,
 		&sz,
 	)
-	n = r.size(sz, maxChunkCodeLen, 4)
-	r.consumeBudget(4 * uint64(n))
+	n = r.sizeFor(sz, maxChunkCodeLen, 4)
 	c.lines = make([]int32, n)
 	r.read(
 		8,
@@ -322,11 +330,10 @@ func (r *breader) readString() (s string) {
 	if r.err != nil {
 		return
 	}
-	n := r.size(sl, maxChunkStringLen, 1)
+	n := r.sizeFor(sl, maxChunkStringLen, 1)
 	if r.err != nil {
 		return
 	}
-	r.consumeBudget(uint64(n))
 	b := make([]byte, n)
 	_, r.err = r.r.Read(b)
 	if r.err == nil {
